@@ -123,7 +123,7 @@ def rules_family(rng, n):
     # use_shapes in advanced mode: shapes consulted by a selected shape are advanced as well (their sh:expression counts)
     EXPR_TTL = """@prefix sh: <http://www.w3.org/ns/shacl#> . @prefix ex: <http://ex.org/> .
 ex:Sel a sh:NodeShape ; sh:targetClass ex:C0 ; sh:property [ sh:path ex:p ; sh:node ex:Nested ] ; sh:%(how)s .
-ex:Nested a sh:NodeShape ; sh:expression [ sh:path ex:flag ] .
+ex:Nested a sh:NodeShape ; sh:expression [ sh:path ex:flag ] %(nested_extra)s .
 ex:Nested2 a sh:NodeShape ; sh:property [ sh:path ex:q ; sh:expression [ sh:path ex:flag ] ] .
 ex:OtherSel a sh:NodeShape ; sh:targetClass ex:C1 ; sh:expression [ sh:path ex:flag ] .
 """
@@ -133,7 +133,10 @@ ex:OtherSel a sh:NodeShape ; sh:targetClass ex:C1 ; sh:expression [ sh:path ex:f
         for x in iris:
             if rng.random() < 0.7:
                 data.add((x, EX.flag, rdflib.Literal(rng.random() < 0.5)))
-        sg = rdflib.Graph().parse(data=EXPR_TTL % {"how": rng.choice(["node ex:Nested2", "not ex:Nested", "or ( ex:Nested ex:Nested2 )"])}, format="turtle")
+        # the consulted shape may have targets and rules of its own: not selected, they stay silent
+        nested_extra = rng.choice(["", "; sh:targetClass ex:C1 ; sh:rule [ a sh:TripleRule ; sh:subject sh:this ; sh:predicate ex:flag ; sh:object true ]",
+                                   "; sh:targetSubjectsOf ex:p ; sh:rule [ a sh:TripleRule ; sh:subject sh:this ; sh:predicate ex:flag ; sh:object false ]"])
+        sg = rdflib.Graph().parse(data=EXPR_TTL % {"how": rng.choice(["node ex:Nested2", "not ex:Nested", "or ( ex:Nested ex:Nested2 )"]), "nested_extra": nested_extra}, format="turtle")
         Us = [EX.Sel]
         Fs = rng.sample(iris, rng.randint(1, min(3, len(iris)))) if rng.random() < 0.5 else []
         case = {"sg": sg, "data": data, "sel": {"F": Fs, "U": Us}}
